@@ -237,6 +237,19 @@ func runC20(c *h.Ctx, idx int, events bool) {
 	defer os.RemoveAll(dir)
 	real, _ := filepath.EvalSymlinks(dir)
 	tree := genTree(r, events)
+	sibling, siblingDir := "", ""
+	if !events && (r.Chance(35) || idx%9 == 4) {
+		// (selection cases only: with a directory AND its files selected one event is legitimately seen twice)
+		// a file whose name extends the name of a directory next to it (docs.yaml beside docs/)
+		for _, d := range tree.dirs {
+			if !strings.Contains(d, "/") && !strings.HasPrefix(d, ".") {
+				siblingDir = d
+				sibling = d + []string{".yaml", "-old.txt", "x.md"}[r.Intn(3)]
+				tree.files = append(tree.files, sibling)
+				break
+			}
+		}
+	}
 	outer := real // harness files (config, logs, $HOME) live here, outside the watched tree
 	real = real + "/tree"
 	os.MkdirAll(real, 0o755)
@@ -247,6 +260,14 @@ func runC20(c *h.Ctx, idx int, events bool) {
 	}
 	for i := 0; i < r.Intn(3); i++ {
 		exc = append(exc, genPattern(r, tree, events))
+	}
+	if sibling != "" {
+		// select the directory and the file beside it
+		if r.Bool() {
+			inc = append(inc, "*")
+		} else {
+			inc = append(inc, siblingDir, sibling)
+		}
 	}
 	if len(tree.files) > 0 && (r.Chance(25) || idx%7 == 3) {
 		// a file included by its plain name (no wildcard) and excluded by a pattern: the exclusion wins
